@@ -79,6 +79,14 @@ def run(ctx):
     if not ok:
         ctx.violation("proof-broken", {"theorem": "props/C02.v", "log": log[-3000:]}, "props/C02.v no longer checks", no_input=True)
         return
+    # further pass theorems live in props/C02_<Pass>.v (one file per pass)
+    import glob, os, importlib
+    for pf in sorted(glob.glob(os.path.join(lib.COQ, "props", "C02_*.v"))):
+        name = os.path.basename(pf)[:-2]
+        okp, logp = lib.coq_check_props(ctx, prop=name)
+        if not okp:
+            ctx.violation(f"proof-broken:{name}", {"theorem": f"props/{name}.v", "log": logp[-3000:]},
+                          f"props/{name}.v no longer checks", no_input=True)
     lib.coq_make(["theories/Search.vo"])
     n_prog = ctx.pick(30, 300)
     N = ctx.pick(3, 5)
@@ -94,6 +102,16 @@ def run(ctx):
                           "timeout": 90})
             meta.append((i, oi))
     results = lib.run_tasks(tasks, timeout=90)
+    # per-pass model correspondence modules harness/pass_<name>.py: run_pass(ctx, runs)
+    runs = []
+    for (i, oi), r in zip(meta, results):
+        if "error" in r:
+            continue
+        runs.append({"text": P.prog_text(progs[i][0]), "prog": progs[i][0], "opts": OPTS[oi], "parsed": r.get("parsed"),
+                     "snapshots": r.get("snapshots") or [], "counter_before": r.get("counter_before"), "flat": r.get("flat")})
+    for mf in sorted(glob.glob(os.path.join(lib.VERIF, "harness", "pass_*.py"))):
+        mod = importlib.import_module(os.path.basename(mf)[:-3])
+        mod.run_pass(ctx, runs)
     files, cases, errs, feats, passes_seen = [], [], {}, {}, {}
     for (i, oi), r in zip(meta, results):
         p, _, tag = progs[i]
